@@ -21,12 +21,12 @@ func init() { propExtras["C06"] = c06Extras }
 // reviewed writers of pre-existing element memory that are not under a C06 contract, with the reason they cannot
 // create aliasing between program values
 var c06Reviewed = map[string]string{
-	"grol.io/grol/object.(BigArray).Swap":             "sort.Sort adapter used by the sort extension on a copy it makes itself (extensions/: slices.Clone before sorting is not checked here: see assumptions)",
-	"grol.io/grol/eval.(*State).DefineMacros":         "removes macro definitions from the statement list of the program being evaluated: syntax tree memory, not a program value",
-	"grol.io/grol/eval.(*State).applyExtension":       "rewrites the argument slice built for this call by evalExpressions (private to the call)",
-	"grol.io/grol/eval.(*State).extendFunctionEnv":    "appends the variadic tail to the argument slice built for this call by evalExpressions (private to the call)",
-	"grol.io/grol/object.(*BigMap).get":               "binary search helper: its slice argument is a local pair used as the search key",
-	"grol.io/grol/ast.Modify":                         "rewrites copies of syntax tree nodes (C13)",
+	"grol.io/grol/object.(BigArray).Swap":          "sort.Sort adapter used by the sort extension on a copy it makes itself (extensions/: slices.Clone before sorting is not checked here: see assumptions)",
+	"grol.io/grol/eval.(*State).DefineMacros":      "removes macro definitions from the statement list of the program being evaluated: syntax tree memory, not a program value",
+	"grol.io/grol/eval.(*State).applyExtension":    "rewrites the argument slice built for this call by evalExpressions (private to the call)",
+	"grol.io/grol/eval.(*State).extendFunctionEnv": "appends the variadic tail to the argument slice built for this call by evalExpressions (private to the call)",
+	"grol.io/grol/object.(*BigMap).get":            "binary search helper: its slice argument is a local pair used as the search key",
+	"grol.io/grol/ast.Modify":                      "rewrites copies of syntax tree nodes (C13)",
 }
 
 func c06Extras(cc *CheckCtx) {
